@@ -9,7 +9,8 @@ for j in ${1:-*}.json; do
   ok=1
   if echo "$out" | grep -q PATCH-DOES-NOT-APPLY; then echo "SKIP $n (does not apply)"; continue; fi
   resid=$(jq -r '(.residual // [])|join(" ")' $j)
-  if [ $kind = breaking ]; then echo "$out" | grep -q 'exit=1' || ok=0; else
+  miss=$(jq -r '.known_miss // ""' $j)
+  if [ $kind = breaking ]; then echo "$out" | grep -q 'exit=1' || { if [ -n "$miss" ]; then echo "     $n: documented miss"; else ok=0; fi; }; else
     alarms=$(echo "$out" | grep -v 'exit=0' | cut -d' ' -f1 | tr '\n' ' ')
     for a in $alarms; do case " $resid " in *" $a "*) ;; *) ok=0;; esac; done
     [ -n "$alarms" ] && [ $ok = 1 ] && echo "     $n: documented residual false alarm(s): $alarms"
